@@ -76,6 +76,30 @@ impl McpManager {
         }
         */
         self.tool_spec_version_ref_map = tool_spec_version_ref_map;
+        // ref_count is not persisted: restore it from the rebuilt reference map, otherwise the next update
+        // of a tool spec drops a version that a server still references
+        let tool_keys: Vec<ToolKey> = self.tool_spec_map.keys().cloned().collect();
+        for tool_key in tool_keys {
+            if let Some(tool_spec) = self.tool_spec_map.get(&tool_key) {
+                let mut new_tool_spec = tool_spec.as_ref().to_owned();
+                let mut changed = false;
+                for (version, spec_version) in new_tool_spec.versions.iter_mut() {
+                    let ref_count = self
+                        .tool_spec_version_ref_map
+                        .get(&tool_key)
+                        .and_then(|m| m.get(version))
+                        .copied()
+                        .unwrap_or_default();
+                    if spec_version.ref_count != ref_count {
+                        spec_version.ref_count = ref_count;
+                        changed = true;
+                    }
+                }
+                if changed {
+                    self.tool_spec_map.insert(tool_key, Arc::new(new_tool_spec));
+                }
+            }
+        }
     }
 
     fn calculate_tool_ref(
@@ -419,6 +443,9 @@ impl McpManager {
             let value_do: McpServerDo = reader.read_message(&record.value)?;
             let value = Arc::new(McpServer::from_do(value_do, &self.tool_spec_map));
             self.do_update_server(value);
+            // the log entries behind the snapshot are replayed before LoadCompleted, they need the
+            // reference counts of the loaded servers already
+            self.init_tool_spec_version_ref_map();
         } else if record.tree.as_str() == MCP_TOOL_SPEC_TABLE_NAME.as_str() {
             let mut reader = BytesReader::from_bytes(&record.value);
             let value_do: McpToolSpecDo = reader.read_message(&record.value)?;
